@@ -63,6 +63,9 @@ var c03Ctx = []string{
 	"{namespace a}\n/** @param x */\n{template .t autoescape=\"false\"}\n{call b.u data=\"all\"/}\n{/template}\n",
 	"{namespace a autoescape=\"false\"}\n/** @param x */\n{template .t}\n{call b.u data=\"all\"/}\n{/template}\n",
 	"{namespace a autoescape=\"true\"}\n/** @param x */\n{template .t}\n{call b.u}{param x: $x /}{/call}\n{/template}\n",
+	// 7, 8: one namespace spread over two files whose declarations differ (caller's file first / last)
+	"{namespace b autoescape=\"false\"}\n/** @param x */\n{template .t}\n{call .u data=\"all\"/}\n{/template}\n",
+	"{namespace b autoescape=\"true\"}\n/** @param x */\n{template .t}\n{call .u data=\"all\"/}\n{/template}\n",
 }
 
 const c03Callee = "{namespace b%NS}\n/** @param x */\n{template .u%TM}\n%P\n{/template}\n"
@@ -99,7 +102,14 @@ func H_decision(ns, tm, dir, ctx int) {
 	d := c03Dirs[dir]
 	p := "{$x" + d.text + "}"
 	var tofu *Tofu
-	if ctx >= 4 {
+	entry := "a.t"
+	if ctx >= 7 {
+		entry = "b.t"
+	}
+	if ctx == 8 {
+		// the callee's file is added first
+		tofu = verifMustCompile(c03Subst(c03Callee, c03Modes[ns], c03Modes[tm], p), c03Ctx[ctx])
+	} else if ctx >= 4 {
 		// cross-namespace call: the mode is the callee's own (template, else its namespace), whatever
 		// the caller's template (ctx 4) or namespace (ctx 5, 6) says
 		tofu = verifMustCompile(c03Ctx[ctx], c03Subst(c03Callee, c03Modes[ns], c03Modes[tm], p))
@@ -108,7 +118,7 @@ func H_decision(ns, tm, dir, ctx int) {
 	}
 	x := verifString(2)
 	verifAssume(x[0] != 0 && x[1] != 0)
-	out, err := verifRender(tofu, "a.t", data.Map{"x": data.String(x)})
+	out, err := verifRender(tofu, entry, data.Map{"x": data.String(x)})
 	verifObserve("x", x)
 	verifObserve("out", out)
 	verifAssert(err == nil, "render failed")
